@@ -224,7 +224,7 @@ def run(prop, tier, replay):
         if not hists or len(queries) < 100 or set(by_kind) != {"match-or", "match-and", "phrase", "bool"}:
             raise vlib.ToolError("scenario generation produced nothing")
         useful = [h for h in hists if any(s["op"] == "index" for s in h)]
-        nscn = 180 if quick else 1500
+        nscn = 120 if quick else 1500
 
         def after_index(h, op):
             i = next((j for j, s in enumerate(h) if s["op"] == "index"), None)
